@@ -1,6 +1,7 @@
 package vc
 
 import (
+	"regexp"
 	"fmt"
 	"go/types"
 	"strings"
@@ -64,9 +65,17 @@ type Layout struct {
 
 var layoutCache = map[string]*Layout{}
 
+// typeKey names a type. The alias any and interface{} are one type and get one name
+// (heap components are keyed by it: a []any written as []interface{} is the same memory).
 func typeKey(t types.Type) string {
-	return types.TypeString(t, func(p *types.Package) string { return p.Path() })
+	s := types.TypeString(types.Unalias(t), func(p *types.Package) string { return p.Path() })
+	if strings.Contains(s, "any") {
+		s = anyWord.ReplaceAllString(s, "${1}interface{}")
+	}
+	return s
 }
+
+var anyWord = regexp.MustCompile(`(^|[^A-Za-z0-9_./])any\b`)
 
 const maxArrayLeaves = 64
 
